@@ -126,16 +126,22 @@ extern "C" void h_create(int ver, int withNormals, int nsym) {
 }
 
 // ---- (c) setter/getter pairs keep counts and return what was set (exact attributes)
-extern "C" void h_setget(int ver, int skinned, int wrongSize) {
+extern "C" void h_setget(int ver, int skinned, int wrongSize, int nsym) {
 	NifFile nif;
 	FmModel m = fm_build(nif, ver, skinned ? FM_SKIN : 0);
 	NiShape* s = m.shape;
 	const size_t n = 4;
 	std::vector<Vector3> nv(n);
-	for (auto& v : nv) {
+	for (size_t i = 0; i < n; i++)
+		nv[i] = Vector3(0.3f + i, 1.7f * i, -0.9f);
+	for (size_t i = 0; i < n && (int) i < nsym; i++) {
+		auto& v = nv[n - 1 - i];
 		v.x = sym_f32("px");
 		v.y = sym_f32("py");
 		v.z = sym_f32("pz");
+		sym_assume(!is_nan_bits(fbits(v.x)));
+		sym_assume(!is_nan_bits(fbits(v.y)));
+		sym_assume(!is_nan_bits(fbits(v.z)));
 	}
 	std::vector<Vector3> before;
 	nif.GetVertsForShape(s, before);
@@ -162,9 +168,14 @@ extern "C" void h_setget(int ver, int skinned, int wrongSize) {
 		sym_assert(g0.size() == uvBefore.size() && (g0.empty() || memcmp(g0.data(), uvBefore.data(), g0.size() * 8) == 0), "C13-setuv-wrongsize: wrong-sized UV input was not ignored");
 	}
 	std::vector<Vector2> nu(n);
-	for (auto& u : nu) {
+	for (size_t i = 0; i < n; i++)
+		nu[i] = Vector2(0.15f * i, 0.7f - 0.1f * i);
+	for (size_t i = 0; i < n && (int) i < nsym; i++) {
+		auto& u = nu[n - 1 - i];
 		u.u = sym_f32("uu");
 		u.v = sym_f32("uv");
+		sym_assume(!is_nan_bits(fbits(u.u)));
+		sym_assume(!is_nan_bits(fbits(u.v)));
 	}
 	nif.SetUvsForShape(s, nu);
 	auto gu = *nif.GetUvsForShape(s);
@@ -177,9 +188,56 @@ extern "C" void h_setget(int ver, int skinned, int wrongSize) {
 	// triangles
 	std::vector<Triangle> nt = {Triangle(2, 1, 0), Triangle(1, 2, 3)};
 	s->SetTriangles(nt);
+	if (skinned)
+		nif.UpdateSkinPartitions(s); // changing the topology of a skinned shape requires rebuilding its partitions
 	std::vector<Triangle> gt;
 	s->GetTriangles(gt);
 	sym_assert(gt.size() == 2 && memcmp(gt.data(), nt.data(), 12) == 0, "C13-settris: GetTriangles does not return what SetTriangles stored");
+	// what was set is what a save + reload returns (bit-exact, or through the half kernels where halves are stored)
+	sym_reach("loaded");
+	FmRange f = fm_save(nif, true);
+	NifFile re;
+	int rc = fm_load(re, f);
+	sym_assert(rc == 0, "C13-set-reload: model does not reload after the setters");
+	NiShape* rs = re.FindBlockByName<NiShape>("Shape");
+	sym_assert(rs != nullptr, "C13-set-reload-shape: shape missing after reload");
+	if (rs) {
+		bool halfPos = false, halfUv = false;
+		if (auto bs = dynamic_cast<BSTriShape*>(rs)) {
+			halfPos = !bs->IsFullPrecision() && re.GetHeader().GetVersion().Stream() != 100;
+			halfUv = true;
+		}
+		std::vector<Vector3> rv;
+		re.GetVertsForShape(rs, rv);
+		sym_assert(rv.size() == n, "C13-set-reload-count: vertex count differs after reload");
+		for (size_t i = 0; i < n && i < rv.size(); i++) {
+			const float in[3] = {nv[i].x, nv[i].y, nv[i].z};
+			const float out[3] = {rv[i].x, rv[i].y, rv[i].z};
+			for (int k = 0; k < 3; k++) {
+				sym_assert(fbits(out[k]) == fbits(halfPos ? through_half(in[k]) : in[k]), "C13-set-reload-verts: vertices set through the API are not what is read back after save+reload");
+			}
+		}
+		auto ru = re.GetUvsForShape(rs);
+		sym_assert(ru && ru->size() == n, "C13-set-reload-uvcount: UV count differs after reload");
+		if (ru)
+			for (size_t i = 0; i < n && i < ru->size(); i++) {
+				const float in[2] = {nu[i].u, nu[i].v};
+				const float out[2] = {(*ru)[i].u, (*ru)[i].v};
+				for (int k = 0; k < 2; k++) {
+					sym_assert(fbits(out[k]) == fbits(halfUv ? through_half(in[k]) : in[k]), "C13-set-reload-uvs: UVs set through the API are not what is read back after save+reload");
+				}
+			}
+		std::vector<Triangle> rt;
+		rs->GetTriangles(rt);
+		// (a skinned SSE shape stores its triangles in the skin partitions, corner-rotated: same triangles, same order)
+		sym_assert(rt.size() == 2, "C13-set-reload-tris: triangle count differs after save+reload");
+		for (size_t i = 0; i < 2 && i < rt.size(); i++) {
+			Triangle a = rt[i], b = nt[i];
+			a.rot();
+			b.rot();
+			sym_assert(a.p1 == b.p1 && a.p2 == b.p2 && a.p3 == b.p3, "C13-set-reload-tris: triangles set through the API are not what is read back after save+reload");
+		}
+	}
 	sym_reach("end");
 }
 
